@@ -17,6 +17,11 @@
 (*  "logfault"  the log machine with the rename fault switched on as soon  *)
 (*              as a current file exists, kept on until writes have been   *)
 (*              refused at least once (cur >= Limit), then anything        *)
+(*  "rollkill"  the log machine in which the FIRST roll that has files to  *)
+(*              remove is killed after the rename (and j removals) and the *)
+(*              run restarted; then writes (rolls), restarts, further      *)
+(*              kills: "kill" steps carry the size n of the write during   *)
+(*              which the run dies and j                                   *)
 (***************************************************************************)
 EXTENDS DiskBounds, Json, IOUtils
 
@@ -26,21 +31,25 @@ gvars == <<vars, hist>>
 GenMode == IF "GEN_MACHINE" \in DOMAIN IOEnv THEN IOEnv.GEN_MACHINE ELSE "all"
 GenMachine == CASE GenMode = "evstop" -> "event"
                 [] GenMode = "logfault" -> "log"
+                [] GenMode = "rollkill" -> "log"
                 [] OTHER -> GenMode
 GenDepth == IF "GEN_DEPTH" \in DOMAIN IOEnv THEN atoi(IOEnv.GEN_DEPTH) ELSE 12
 
 \* expected abstract state AFTER the step (primed variables), as compared with the directory listings;
 \* refused: the write is expected to be refused (roll needed while the rename fails)
-After(o, k) == [op |-> o, n |-> k, arch |-> arch', cur |-> cur', ev |-> evFiles', q |-> evQueue',
+After(o, k, jj) == [op |-> o, n |-> k, j |-> jj, arch |-> arch', cur |-> cur', ev |-> evFiles', q |-> evQueue',
                 wrote |-> IF evFiles' > evFiles THEN evQueue ELSE 0, dumps |-> dumps',
                 refused |-> (o = "write" /\ ShouldRoll /\ rollFails), pin |-> rollFails', run |-> evRun']
-Log(o, k) == hist' = Append(hist, After(o, k))
+Log(o, k) == hist' = Append(hist, After(o, k, 0))
+LogJ(o, k, jj) == hist' = Append(hist, After(o, k, jj))
 
 GInit == /\ Init
-         /\ hist = << [op |-> "init", n |-> 0, arch |-> arch, cur |-> cur, ev |-> evFiles, q |-> 0,
+         /\ hist = << [op |-> "init", n |-> 0, j |-> 0, arch |-> arch, cur |-> cur, ev |-> evFiles, q |-> 0,
                        wrote |-> 0, dumps |-> dumps, refused |-> FALSE, pin |-> FALSE, run |-> TRUE] >>
 
 Unpinned == \E i \in DOMAIN hist : hist[i].op = "unpin"
+Killed == \E i \in DOMAIN hist : hist[i].op = "kill"
+KillDue == ShouldRoll /\ Excess(Len(Renamed), MaxCount) > 0
 \* which operations a directed mode lets through (undirected modes: all of them)
 Allowed(o) ==
   CASE GenMode = "evstop" ->
@@ -55,7 +64,12 @@ Allowed(o) ==
            [] o = "unpin" -> cur >= Limit
            [] o = "restart" -> rollFails \/ Unpinned
            [] OTHER -> FALSE
-    [] OTHER -> TRUE
+    [] GenMode = "rollkill" ->
+         CASE o = "write" -> Killed \/ ~KillDue
+           [] o = "kill" -> debt < 2
+           [] o = "restart" -> Killed
+           [] OTHER -> FALSE
+    [] OTHER -> o # "kill"                    \* (kills are replayed under strace: kept to the directed mode)
 
 GNext ==
   /\ Len(hist) <= GenDepth
@@ -63,6 +77,7 @@ GNext ==
                                /\ \/ LogWriteNoRoll(n) \/ LogWriteRollKeep(n) \/ LogWriteRollTrim(n)
                                   \/ LogWriteRollFails(n)
                                /\ Log("write", n)
+     \/ \E jj \in 0..(PreArch + 2) : Allowed("kill") /\ LogKilledInRoll(jj) /\ LogJ("kill", 1 + (jj % MaxWrite), jj)
      \/ Allowed("pin") /\ LogFaultOn /\ Log("pin", 0)
      \/ Allowed("unpin") /\ LogFaultOff /\ Log("unpin", 0)
      \/ \E k \in 1..MaxPush : Allowed("push") /\ (EvPush(k) \/ EvPushClosed(k)) /\ Log("push", k)
